@@ -12,6 +12,7 @@ CONSTANTS
   Filts = {"none", "client"}
   Ops = {"pub", "rem", "exp", "sexp", "clear", "refresh", "poscheck"}
   MaxJumps = 0
+  EpochCheck = TRUE
   Pres = {3}
   N0s = {0, 2}
   Contig = TRUE
